@@ -167,11 +167,20 @@ def run(chk):
         try:
             obj = oqupy.PowerLawSD(**kw)
             cells = [("upper-triangle", 0.0, None), ("square", dt, None), ("rectangle", 2 * dt, 3 * dt)]
+            # the correlation function itself at a few time differences (real and imaginary time), before and after the change
+            taus = [0.0, dt, 3 * dt, -dt]
+            cfun_ = lambda o_: [complex(o_.correlation(t_)) for t_ in taus] + ([complex(o_.correlation(dt, matsubara=True))] if o_.temperature > 0 else [])
             before = [complex(obj.correlation_2d_integral(dt, t1, t2, shape=sh)) for sh, t1, t2 in cells]
+            before_c = cfun_(obj)
             setattr(obj, attr, new)
             after = [complex(obj.correlation_2d_integral(dt, t1, t2, shape=sh)) for sh, t1, t2 in cells]
+            after_c = cfun_(obj)
             fresh_obj = oqupy.PowerLawSD(**dict(kw, **{attr: new}))
             fresh = [complex(fresh_obj.correlation_2d_integral(dt, t1, t2, shape=sh)) for sh, t1, t2 in cells]
+            fresh_c = cfun_(fresh_obj)
+            if len(after_c) != len(fresh_c) or any(abs(a_ - f_) > 1e-9 * max(abs(f_), 1e-12) for a_, f_ in zip(after_c, fresh_c)):
+                chk.fail("stale-after-parameter-change", f"PowerLawSD: after setting {attr} = {new!r} correlation(tau) at tau = {taus} is {after_c}, a fresh object with "
+                         f"the same parameters gives {fresh_c}", dict(info, shape="correlation function"))
             for (sh, t1, t2), a_, f_, b_ in zip(cells, after, fresh, before):
                 if abs(a_ - f_) > 1e-9 * max(abs(f_), 1e-12):
                     chk.fail("stale-after-parameter-change", f"PowerLawSD: after setting {attr} = {new!r} the {sh} cell is {a_:.8g}, a fresh object with the same "
